@@ -193,6 +193,14 @@ def judge_events(module, cfg, events_doc_list, workdir_, key="events", timeout=1
     return verdicts, stats
 
 
+def mode_a(module, cfg, wd, env=None, timeout=3400, workers=4, what=""):
+    """Run an MC_* module; a failure is a tool error carrying TLC's counterexample. Returns (generated, distinct)."""
+    out, rc, wall = run_tlc(module, cfg, os.path.join(wd, "meta-" + module.split(".")[0]), env=env, timeout=timeout, workers=workers, xmx="6g")
+    if "No error has been found" not in out:
+        raise ToolError("%s: design-level check failed%s:\n%s" % (module, (" (" + what + ")") if what else "", out[-3000:]))
+    return tlc_counts(out)
+
+
 def chunks(lst, n):
     return [lst[i:i + n] for i in range(0, len(lst), n)]
 
